@@ -6,15 +6,16 @@
  * that stores the type and generates a fresh id).  QXmppIq::parse is NOT modelled here: it is a declared callee with an
  * assumed contract (callees.h). */
 typedef struct StanzaError { int type; int cond; } StanzaError;                         /* QXmppStanza::Error */
-typedef struct QXmppIq { qstr id; qstr to; qstr from; int type; bool has_err; int err_cond; } QXmppIq;
-static inline void QXmppIq_ctor(QXmppIq *q, int type) { q->id = nondet_qstr(); q->to = 0; q->from = 0; q->type = type; q->has_err = false; q->err_cond = -1; }
+typedef struct QXmppIq { qstr id; qstr to; qstr from; int type; bool has_err; int err_cond; qstr queryNode; int queryType; } QXmppIq;
+static inline void QXmppIq_ctor(QXmppIq *q, int type) { q->id = nondet_qstr(); q->to = 0; q->from = 0; q->type = type; q->has_err = false; q->err_cond = -1; q->queryNode = 0; q->queryType = 0; }
 static inline void QXmppIq_ctor0(QXmppIq *q) { QXmppIq_ctor(q, QXmppIq_Type__Get); }     /* default argument of QXmppIq(Type = Get) */
 static inline void QXmppIq_setId(QXmppIq *q, qstr v) { q->id = v; }
 static inline void QXmppIq_setTo(QXmppIq *q, qstr v) { q->to = v; }
 static inline void QXmppIq_setFrom(QXmppIq *q, qstr v) { q->from = v; }
 static inline void QXmppIq_setType(QXmppIq *q, int t) { q->type = t; }
 static inline void QXmppIq_setError(QXmppIq *q, const StanzaError *e) { q->has_err = true; q->err_cond = e->cond; }
-static inline void QXmppIq_setPayload(QXmppIq *q) { (void)q; }                            /* any payload setter */
+static inline void QXmppIq_setQueryNode(QXmppIq *q, qstr v) { q->queryNode = v; }           /* QXmppDiscoveryIq payload members the manager branches on */
+static inline void QXmppIq_setQueryType(QXmppIq *q, int v) { q->queryType = v; }
 static inline void StanzaError_ctor2(StanzaError *e, int type, int cond) { e->type = type; e->cond = cond; }
 static inline void StanzaError_ctor3(StanzaError *e, int type, int cond, qstr text) { (void)text; e->type = type; e->cond = cond; }
 
